@@ -6,8 +6,8 @@ Comparison rules (DESIGN §5 C01 Tie):
    computed by the Lean driver from the same ARPA bytes (independent of the algorithm under test);
    quantised classes only when the value count of every order fits the bins (pre-observation D);
  * structure (ngram_length, independent_left, out-state length/words/back-offs): model algorithm vs
-   implementation, exact; for the trie family only when the model is suffix-closed (pre-observation G:
-   the trie drops "extends" marks of trailing blanks on pruned models), probing always;
+   implementation, exact, for all six classes on all models incl. SRI-pruned ones (pre-observation G, the trie
+   dropping "extends" marks of trailing blanks, is repaired in /repo by 0f1ce5c: `unmarked` is empty);
  * when suffix-closed additionally the L0 specs: ngram_length = longest match, independent_left = spec.
 """
 import os
@@ -224,7 +224,7 @@ def compare(case, impl_lines, model_lines, classes=CLASSES, want=("oracle", "str
                             problems.append({"kind": "oracle-prob", "cls": c, "call": nm, "query": qi, "pos": pos,
                                              "impl": float(fbits(r["prob"])), "spec": float(rm.spec), "spec_exact": str(rm.spec),
                                              "tol": float(t), "quant_lossless_expected": qfit if quant else None})
-                if "struct" in want and (closed or c in "PR"):
+                if "struct" in want:      # all six classes, pruned models included (trie marks repaired by 0f1ce5c)
                     for nm, r, m, q in (("FullScore", ri.F, rm.F, rm.qF), ("FullScoreForgotState", ri.G, rm.G, rm.qG)):
                         mi = m["indep"]     # (the probing unigram sign-bit quirk `q` is repaired by repo patch 60)
                         if r["len"] != m["len"] or r["indep"] != mi or \
